@@ -108,11 +108,18 @@ func (l *Loaded) Pos(p token.Pos) string {
 	return f + ":" + strconv.Itoa(pp.Line)
 }
 
-func Load(repo string, all bool, tests bool) *Loaded {
+func Load(repo string, all bool, tests bool) *Loaded { return loadCfg(repo, all, tests, nil, nil) }
+
+// LoadWith loads the working tree with an in-memory overlay (file path -> content) and extra environment.
+func LoadWith(repo string, overlay map[string][]byte, env []string) *Loaded {
+	return loadCfg(repo, false, false, overlay, env)
+}
+
+func loadCfg(repo string, all bool, tests bool, overlay map[string][]byte, env []string) *Loaded {
 	mode := packages.NeedName | packages.NeedFiles | packages.NeedCompiledGoFiles | packages.NeedImports |
 		packages.NeedDeps | packages.NeedTypes | packages.NeedSyntax | packages.NeedTypesInfo | packages.NeedTypesSizes | packages.NeedModule
-	cfg := &packages.Config{Mode: mode, Dir: repo, Tests: tests,
-		Env: append(os.Environ(), "GOFLAGS=-mod=mod", "GOPROXY=off", "GOSUMDB=off", "GOTOOLCHAIN=local", "GOWORK=off")}
+	cfg := &packages.Config{Mode: mode, Dir: repo, Tests: tests, Overlay: overlay,
+		Env: append(append(os.Environ(), "GOFLAGS=-mod=mod", "GOPROXY=off", "GOSUMDB=off", "GOTOOLCHAIN=local", "GOWORK=off"), env...)}
 	pkgs, err := packages.Load(cfg, "./...")
 	if err != nil {
 		panic(Undecided{"load: " + err.Error()})
@@ -417,6 +424,7 @@ func runCheck(id, tier string) (code int) {
 	c.L = Load(repoDir(), false, false)
 	fn(c)
 	if tier == "thorough" {
+		runThorough(c, fn)
 		if tf := thoroughRegistry[id]; tf != nil {
 			tf(c)
 		}
